@@ -78,6 +78,12 @@ Example ex_roundtrip :
   bind (to_sample_f32_of_int Checked FU16 12345) (to_sample_int_of_f32 Checked FU16) = Ok 12345.
 Proof. unfold in_range; vm_compute; intuition congruence. Qed.
 
+(* a 32-bit value with few significant bits converts exactly although 32 > 24, and comes back *)
+Example ex_roundtrip_pointwise :
+  in_range FI32 (-50331648) /\
+  bind (to_sample_f32_of_int Checked FI32 (-50331648)) (to_sample_int_of_f32 Checked FI32) = Ok (-50331648).
+Proof. unfold in_range; vm_compute; intuition congruence. Qed.
+
 (* ... and the hypothesis is needed: i32 -> f32 -> i32 does not return 2^24 + 1 *)
 Example ex_roundtrip_needs_exactness :
   bind (to_sample_f32_of_int Checked FI32 16777217) (to_sample_int_of_f32 Checked FI32) = Ok 16777216.
